@@ -8,7 +8,7 @@ from vlib import core, dom
 
 ID = "C14"
 GEN = ["flowprops"]
-PROPS = ["C14_relperm.v"]
+PROPS = ["C14_relperm.v", "C14_signatures.v"]
 NAMES = ("n_o", "n_w", "n_g", "S_or", "S_wc", "S_gc", "k_ro_max", "k_rw_max", "k_rg_max")
 
 
